@@ -54,9 +54,11 @@ def solver(pid, text, cat="model_checking", ref=None):
     CHECKS[pid] = dict(engine="solver", cat=cat, tech=SOLVER_TECH, text=text, note=SOLVER_NOTE, ref=ref or ("5 " + pid))
 solver("C11", "Every public call of random histories on Solver / SolverCacheless / SolverStrings (with a probe battery of exhaustive evals, signed/unsigned min/max and solution queries after each history) is checked by TLC against the allowed-outcome relation of SolverAbs at the abstract state (set of models) computed from the logged inputs only.")
 solver("C12", "TLC explores the refined partition model spec/SolverComposite.tla (children as groups of connected variables, registration dictionary, unchecked set, _unsat flag; actions Add / Sat / Eval with simplify, merged solver, reabsorb and helper-constraint expansion / Simplify / Split) with the refinement property AnswerStep (every answer is the one of the conjunction of all added constraints) and the invariants RegDisjoint, RegWithinVars, Coverage, FlagSound, CheckedSat; every reachable state x every input is replayed on the real SolverComposite, the observed partition is compared with the model's, and every call is validated by TLC against SolverAbs. Plus seeded SolverComposite histories over three variables whose constraints connect and disconnect groups (adds, all queries with bridging extra constraints, branch, simplify, split, combine, merge) and a probe battery ending with the full joint model set.")
-CHECKS["C11"]["tech"] = SOLVER_TECH + "; refined cache model SolverCache.tla explored by TLC (refinement property + 4 invariants), its states x inputs replayed on the real class"
-CHECKS["C12"]["tech"] = SOLVER_TECH + "; refined partition model SolverComposite.tla explored by TLC (refinement property + 5 invariants), its states x inputs replayed on the real class"
+KN = "; knowledge monitor Knowledge.tla (no term semantics, any width) validating recordings of the repository's own test-suite and of wide-width histories (harness/recorder.py)"
+CHECKS["C11"]["tech"] = SOLVER_TECH + KN + "; refined cache model SolverCache.tla explored by TLC (refinement property + 4 invariants), its states x inputs replayed on the real class"
+CHECKS["C12"]["tech"] = SOLVER_TECH + KN + "; refined partition model SolverComposite.tla explored by TLC (refinement property + 5 invariants), its states x inputs replayed on the real class"
 solver("C13", "SolverReplacement (default and auto_replace=False), SolverHybrid in exact mode validated against the exact relation; SolverVSA and SolverHybrid(exact=False / approximate_first) against the over-approximation relation (never unsat on sat, never exclude a value, bounds on the right side).")
+CHECKS["C13"]["tech"] = SOLVER_TECH + KN
 solver("C14", "Branch-heavy histories on trees of up to 5 solver objects of every frontend class; isolation is per-id correctness in SolverAbs (Branch copies the model set, no later action on one id mentions the other); probe battery on every live id.")
 solver("C15", "merge (with and without ancestor), combine and split on solvers produced by random histories: TLC computes the documented model sets (union of condition_i /\\ models_i, intersection, variable-disjoint parts carrying every conjunct and jointly equivalent) and checks the results and all later answers of the results.")
 solver("C16", "Tracked Solver / SolverCacheless / SolverComposite histories with unsat_core(): TLC checks empty core on satisfiable sets, every element a constraint that was added (or currently held), and unsatisfiability of the conjunction of the core by enumeration.")
